@@ -716,108 +716,14 @@ theorem wf2_mkPrefetch (w b : Nat) (t : Bool) (ce : Option (List Err)) {r r' : R
 
 /-! ### parallel map: a map after the queue dropped the last `b` results of a failing input -/
 
-/-- what `lazy_parallel_map` hands on of its input: everything when the input ends normally, all
-    but the last `b` elements when it raises -/
-def truncStream {α} (b : Nat) (s : Stream α) : Stream α :=
-  match s.err with
-  | none => s
-  | some e => ⟨s.vals.take (s.vals.length - b), some e⟩
-
-theorem parMapStream_eq {α β} (f : α → Res β) (b : Nat) (s : Stream α) :
-    parMapStream f b s = (truncStream b s).mapM f := by
-  obtain ⟨vals, err⟩ := s
-  cases err <;> rfl
-
-def truncRef (b : Nat) (r : RefDS) : RefDS :=
-  { r with stream := truncStream b r.stream, kstream := truncStream b r.kstream }
-
 theorem parMap_eq (f : Val → Res Val) (b : Nat) (r : RefDS) :
-    Ref.parMap f b r = Ref.map f (truncRef b r) := by
-  simp only [Ref.parMap, Ref.map, truncRef, parMapStream_eq]
-
-theorem truncStream_none {α} (b : Nat) (s : Stream α) (h : s.err = none) : truncStream b s = s := by
-  simp only [truncStream, h]
-
-theorem truncStream_some {α} (b : Nat) (s : Stream α) (e : Err) (h : s.err = some e) :
-    truncStream b s = ⟨s.vals.take (s.vals.length - b), some e⟩ := by
-  simp only [truncStream, h]
-
-theorem wf2_trunc (b : Nat) {r : RefDS} (h : RefWF2 r) : RefWF2 (truncRef b r) := by
-  obtain ⟨⟨hpos, hlen, hpairs, hkeyed⟩, hlo, hkl⟩ := h
-  refine { pos := ?_, len := ?_, pairs := ?_, keyed := ?_, lenOuts := hlo, keysLen := hkl }
-  · intro hi
-    obtain ⟨p1, p2, p3⟩ := hpos hi
-    have ho : (truncRef b r).outs = r.outs := rfl
-    rw [ho]
-    cases hse : r.stream.err with
-    | none =>
-      have hts : (truncRef b r).stream = r.stream := truncStream_none b _ hse
-      rw [hts]; exact ⟨p1, p2, p3⟩
-    | some e =>
-      have hts : (truncRef b r).stream = ⟨r.stream.vals.take (r.stream.vals.length - b), some e⟩ :=
-        truncStream_some b _ e hse
-      rw [hts]
-      simp only [List.length_take]
-      refine ⟨by omega, ?_, ?_⟩
-      · intro t ht
-        rw [List.getElem_take]
-        exact p2 t (by omega)
-      · intro hc; cases hc
-  · intro n hn he
-    simp only [truncRef] at hn he ⊢
-    cases hse : r.stream.err with
-    | none => rw [truncStream_none b _ hse]; exact hlen n hn hse
-    | some e => rw [truncStream_some b _ e hse] at he; cases he
-  · simp only [truncRef]
-    obtain ⟨⟨tl, htl⟩, hp2⟩ := hpairs
-    cases hke : r.kstream.err with
-    | none =>
-      obtain ⟨a, c⟩ := hp2 hke
-      rw [truncStream_none b _ hke, truncStream_none b _ c]
-      exact ⟨by rw [a]; exact List.prefix_refl _, fun _ => ⟨a, c⟩⟩
-    | some ek =>
-      rw [truncStream_some b _ ek hke]
-      have hlen' : r.kstream.vals.length ≤ r.stream.vals.length := by
-        have := congrArg List.length htl
-        simp only [List.length_append, List.length_map] at this
-        omega
-      have hk : (r.kstream.vals.take (r.kstream.vals.length - b)).map (·.2)
-          <+: r.stream.vals.take (r.stream.vals.length - b) := by
-        rw [List.prefix_take_iff]
-        constructor
-        · exact List.IsPrefix.trans (by rw [List.map_take]; exact List.take_prefix _ _) ⟨tl, htl⟩
-        · simp only [List.length_map, List.length_take]
-          omega
-      cases hse : r.stream.err with
-      | none =>
-        rw [truncStream_none b _ hse]
-        refine ⟨?_, fun hc => by cases hc⟩
-        exact List.IsPrefix.trans (by rw [List.map_take]; exact List.take_prefix _ _) ⟨tl, htl⟩
-      | some es =>
-        rw [truncStream_some b _ es hse]
-        exact ⟨hk, fun hc => by cases hc⟩
-  · intro ks hks hi
-    obtain ⟨q1, q2, q3⟩ := hkeyed ks hks hi
-    simp only [truncRef]
-    have hlen' : r.kstream.vals.length = r.stream.vals.length := by rw [← q2, List.length_map]
-    cases hse : r.stream.err with
-    | none =>
-      rw [truncStream_none b _ hse, truncStream_none b _ (q1.trans hse)]
-      exact ⟨q1, q2, q3⟩
-    | some e =>
-      rw [truncStream_some b _ e hse, truncStream_some b _ e (q1.trans hse)]
-      refine ⟨rfl, ?_, ?_⟩
-      · show (r.kstream.vals.take (r.kstream.vals.length - b)).map (·.2)
-          = r.stream.vals.take (r.stream.vals.length - b)
-        rw [List.map_take, q2, hlen']
-      · show (r.kstream.vals.take (r.kstream.vals.length - b)).map (·.1)
-          = ks.take (r.kstream.vals.take (r.kstream.vals.length - b)).length
-        rw [List.map_take, q3, List.take_take, List.length_take]
+    Ref.parMap f b r = Ref.map f r := by
+  simp only [Ref.parMap, Ref.map, parMapStream]
 
 theorem wf2_parMap (f : Val → Res Val) (b : Nat) {r : RefDS} (h : RefWF2 r) :
     RefWF2 (Ref.parMap f b r) := by
   rw [parMap_eq]
-  exact wf2_map f (wf2_trunc b h)
+  exact wf2_map f h
 
 /-! ### eager cache: the result is a list source or a dict source -/
 
